@@ -39,7 +39,17 @@ def parseExt (field : String) : Ext :=
       let o ← v.toInt?
       pure (s, o)
     | _ => none
-  { fmtFloat := fun b bits => (ff.find? fun e => e.1 == (b, bits)).map (·.2),
+  let jf : List ((Nat × Nat) × Option Bytes) := kvs.filterMap fun (k, v) =>
+    match k.splitOn ":" with
+    | ["jf", b, bits] => do
+      let b ← hexNat b
+      let bits ← bits.toNat?
+      if v == "E" then pure ((b, bits), none) else do
+        let s ← unhex v
+        pure ((b, bits), some s)
+    | _ => none
+  { jsonFloat := fun b bits => (jf.find? fun e => e.1 == (b, bits)).map (·.2),
+    fmtFloat := fun b bits => (ff.find? fun e => e.1 == (b, bits)).map (·.2),
     parseFloat := fun s bits => (pf.find? fun e => e.1 == (s, bits)).map (·.2),
     zoneOffset := fun s => (zo.find? fun e => e.1 == s).map (·.2) }
 
